@@ -90,7 +90,13 @@ def is_total(fid):
     return not (m.startswith(PARTIAL) or m in PARTIAL_EXACT)
 
 
+RECORD = None        # tools/validate_deprows.py sets this to a list to collect every row's specification
+
+
 def row(K, prop, fid, name, shape, contents, required, n, soft=False, by_ref_out=False, inst=None):
+    if RECORD is not None:
+        RECORD.append(dict(prop=prop, fid=fid, name=name, shape=dict(shape), contents=list(contents), required=list(required), n=n,
+                           by_ref_out=by_ref_out, config=K.config))
     F = K.F
     root = inst if inst is not None else F.root_of(fid)
     if root is None:
@@ -223,12 +229,12 @@ def c02(K, Ns):
                 fid = inh(A, "widening_mul")
                 if exists(K, fid):
                     req = [((0,) + dig_path(A) + (k,), lab("a", range(k + 1)) | lab("b", range(k + 1)), "digit %d of the low half" % k) for k in range(n)]
-                    req += [((1,) + dig_path(A) + (k,), allab, "digit %d of the high half" % k) for k in range(n)]
+                    req += [((1,) + dig_path(A) + (k,), lab("a", range(k, n)) | lab("b", range(k, n)), "digit %d of the high half" % k) for k in range(n)]
                     out.append(row(K, "C02", fid, "N%d" % n, sh, [val_of(A, "a"), val_of(A, "b")], req, n))
                 fid = inh(A, "carrying_mul")
                 if exists(K, fid):
                     req = [((0,) + dig_path(A) + (k,), lab("a", range(k + 1)) | lab("b", range(k + 1)) | lab("c", range(k + 1)), "digit %d of the low half" % k) for k in range(n)]
-                    req += [((1,) + dig_path(A) + (k,), allab | lab("c", range(n)), "digit %d of the high half" % k) for k in range(n)]
+                    req += [((1,) + dig_path(A) + (k,), lab("a", range(k, n)) | lab("b", range(k, n)), "digit %d of the high half" % k) for k in range(n)]
                     out.append(row(K, "C02", fid, "N%d" % n, sh, [val_of(A, "a"), val_of(A, "b"), val_of(A, "c")], req, n))
     return out
 
@@ -375,20 +381,26 @@ def c07(K, Ns):
                 fid = tr(A, trait, [], m)
                 if exists(K, fid):
                     out.append(row(K, "C07", fid, "N%d" % n, sh, [val_of(A, "a"), val_of(A, "b")], [((), both, "the result")], n))
+            # digit k of max / min / clamp: which operand is selected is decided by the most significant digit that differs, so
+            # (when digit k differs) only digits at or above k can matter
+            def upper(k, labels):
+                r_ = set()
+                for l_ in labels:
+                    r_ |= lab(l_, range(k, n))
+                return r_
             for m in ("max", "min"):
                 fid = inh(A, m)
                 if exists(K, fid):
                     out.append(row(K, "C07", fid, "N%d" % n, sh, [val_of(A, "a"), val_of(A, "b")],
-                                   [(dig_path(A) + (k,), both, "digit %d of the result" % k) for k in range(n)], n))
+                                   [(dig_path(A) + (k,), upper(k, "ab"), "digit %d of the result" % k) for k in range(n)], n))
                 fid = tr(A, "core::cmp::Ord", [], m)
                 if exists(K, fid):
                     out.append(row(K, "C07", fid, "N%d" % n, sh, [val_of(A, "a"), val_of(A, "b")],
-                                   [(dig_path(A) + (k,), both, "digit %d of the result" % k) for k in range(n)], n))
+                                   [(dig_path(A) + (k,), upper(k, "ab"), "digit %d of the result" % k) for k in range(n)], n))
             fid = inh(A, "clamp")
             if exists(K, fid):
-                every = both | lab("c", range(n))
                 out.append(row(K, "C07", fid, "N%d" % n, sh, [val_of(A, "a"), val_of(A, "b"), val_of(A, "c")],
-                               [(dig_path(A) + (k,), every, "digit %d of the result" % k) for k in range(n)], n))
+                               [(dig_path(A) + (k,), upper(k, "abc"), "digit %d of the result" % k) for k in range(n)], n))
             if sg:
                 alla = lab("a", range(n))
                 for m, need in (("is_negative", lab("a", [n - 1])), ("is_positive", alla), ("signum", alla)):
@@ -409,7 +421,7 @@ def c08(K, Ns):
     for A in ADTS:
         for n in Ns:
             sh = {"N": n}
-            for e in (1, 2, 3, 5, 8, 1 << 31):
+            for e in (1, 2, 3, 5, 1 << 31):
                 for m, form in (("pow", "val"), ("wrapping_pow", "val"), ("checked_pow", "opt"), ("overflowing_pow", "pair"), ("saturating_pow", "val"), ("strict_pow", "val")):
                     fid = inh(A, m)
                     if not exists(K, fid):
@@ -417,10 +429,24 @@ def c08(K, Ns):
                     if e == 1 << 31 and m not in ("wrapping_pow", "overflowing_pow"):
                         continue            # the other forms overflow for every base but 0, 1, -1
                     vp, fp = ret_forms(A, form)
-                    # digit k of a^e varies with digits j <= k of a; whether a^e overflows (e >= 2) varies with every digit
-                    req = [(vp + dig_path(A) + (k,), lab("a", range(k + 1)), "digit %d of the power" % k) for k in range(n)]
-                    if fp is not None and e >= 2:
-                        req.append((fp, lab("a", range(n)), "the overflow flag / decision"))
+                    if e == 1:
+                        # a^1 = a: digit k varies with digit k (and with nothing else)
+                        req = [(vp + dig_path(A) + (k,), lab("a", [k]), "digit %d of the power" % k) for k in range(n)]
+                    elif e == 1 << 31:
+                        # a huge power of two as exponent: the low bits of the result are constant for odd bases (the unit group
+                        # of 2^BITS has exponent 2^(BITS-2)), so no dependence is required; the row decides totality only
+                        req = []
+                    else:
+                        # e in {2, 3, 5}: digit k of a^e varies with digits j <= k of a (the cross terms e * a_0^(e-1) * a_k * B^k);
+                        # whether a^e overflows varies with every digit
+                        wraps = m in ("wrapping_pow", "overflowing_pow") or (m == "pow" and not K.debug)
+                        # a form that returns a value only when a^e fits can only see base digits j with j * e < n
+                        js = (lambda k: range(k + 1)) if wraps else (lambda k: [j for j in range(k + 1) if j * e < n])
+                        req = [(vp + dig_path(A) + (k,), lab("a", js(k)), "digit %d of the power" % k) for k in range(n) if js(k)]
+                        if m == "saturating_pow":
+                            req = [(vp + dig_path(A) + (k,), lab("a", range(n)), "digit %d of the (possibly saturated) power" % k) for k in range(n)] if False else req
+                        if fp is not None:
+                            req.append((fp, lab("a", range(n)), "the overflow flag / decision"))
                     out.append(row(K, "C08", fid, "N%d_e%d" % (n, e), sh, [val_of(A, "a"), ("c", e, "u32")], req, n))
     return out
 
@@ -449,12 +475,13 @@ def c10(K, Ns):
                         if not exists(K, fid):
                             continue
                         allb = {"s[%d]" % j for j in range(L)}
-                        lsd = "s[%d]" % (L - 1 if be else 0)
-                        pow2 = r & (r - 1) == 0
-                        # every numeral can make the input invalid; the least significant digit of the value varies with the
-                        # least significant numeral, and (radix not a power of two, few numerals) with every numeral
+                        # every numeral can make the input invalid; digit 0 of the value (its low `db` bits) varies with the
+                        # numeral of significance i exactly when radix^i is not a multiple of 2^db
+                        dbits = db_of(A)
+                        sig = [i for i in range(L) if (r ** i) % (1 << dbits) != 0 and (r ** i) < (1 << (n * dbits - (1 if is_signed(A) and False else 0)))]
+                        low = {"s[%d]" % ((L - 1 - i) if be else i) for i in sig}
                         req = [(("discr",), allb, "the Some/None decision"),
-                               ((("some",), 0) + dig_path(A) + (0,), ({lsd} if pow2 else allb), "digit 0 of the value")]
+                               ((("some",), 0) + dig_path(A) + (0,), low, "digit 0 of the value")]
                         out.append(row(K, "C10", fid, "N%d_r%d_L%d" % (n, r, L), sh, [("bytes", "s", L), ("c", r, "u32")], req, n))
     return out
 
@@ -881,8 +908,9 @@ def c18(K, Ns):
             for e in (1, 2, 3, 5):
                 fid = tr(A, NT + "PrimInt", [], "pow")
                 if exists(K, fid):
+                    js = (lambda k: [k]) if e == 1 else ((lambda k: range(k + 1)) if not K.debug else (lambda k: [j for j in range(k + 1) if j * e < n]))
                     out.append(row(K, "C18", fid, "N%d_e%d" % (n, e), sh, one + [("c", e, "u32")],
-                                   [(dig_path(A) + (k,), lab("a", range(k + 1)), "digit %d of the power" % k) for k in range(n)], n))
+                                   [(dig_path(A) + (k,), lab("a", js(k)), "digit %d of the power" % k) for k in range(n) if js(k)], n))
             if sg:
                 for m, need in (("is_negative", lab("a", [n - 1])), ("is_positive", alla)):
                     fid = tr(A, NT + "Signed", [], m)
